@@ -301,4 +301,152 @@ def access (st : St) (imp : Bool) (first : Name) (attrs : List Name) : Option Id
 def sharedIds (a b exempt : List Id) : List Id :=
   a.filter fun x => b.contains x && !exempt.contains x
 
+/-! ## Option sequences (risor_options.go) -/
+
+/-- one configuration option as the host writes it.  `WithGlobals(m)` is one `withGlobal`
+    per entry, `WithoutGlobals(ns…)` one `without` per name. -/
+inductive Opt where
+  | withGlobal (n : Name) (v : Id)
+  | without (n : Name)
+  | override (n : Name) (v : Id)
+  | noDefaults
+deriving DecidableEq, Repr
+
+/-- the fields of `Config` the options write before `init` runs -/
+structure Cfg where
+  globals : Table
+  denylist : List Name
+  overrides : Table
+  noDefaults : Bool
+deriving Repr, DecidableEq
+
+def Cfg.empty : Cfg := ⟨[], [], [], false⟩
+
+/-- the option functions of risor_options.go as they are: every one writes its own field,
+    none looks at what an earlier option did -/
+def applyOpt (c : Cfg) : Opt → Cfg
+  | .withGlobal n v => { c with globals := tput c.globals n v }
+  | .without n => { c with denylist := if c.denylist.contains n then c.denylist else c.denylist ++ [n] }
+  | .override n v => { c with overrides := tput c.overrides n v }
+  | .noDefaults => { c with noDefaults := true }
+
+/-- `NewConfig(opts...)` before `init` -/
+def applyOpts (opts : List Opt) : Cfg := opts.foldl applyOpt Cfg.empty
+
+/-- `Config.init` on the fields the options left, with the iteration orders of the two Go maps
+    (`ds` enumerates the denylist, `os` the overrides) as parameters -/
+def initFrom (c : Cfg) (dflt : Table) (mods : List (Id × Table)) (back : List (Id × Id))
+    (ds : List Name) (os : Table) : St :=
+  initCfg ⟨mergeDefaults c.noDefaults c.globals dflt, mods, back⟩
+    (ds.map splitDots) (os.map fun kv => (splitDots kv.1, kv.2))
+
+/-- the same with descending module-path resolution (what the property demands) -/
+def initFromSpec (c : Cfg) (dflt : Table) (mods : List (Id × Table)) (back : List (Id × Id))
+    (ds : List Name) (os : Table) : St :=
+  initSpec ⟨mergeDefaults c.noDefaults c.globals dflt, mods, back⟩
+    (ds.map splitDots) (os.map fun kv => (splitDots kv.1, kv.2))
+
+/-- `ds` enumerates the set `s` (any order, repetitions allowed) -/
+def EnumSet (s ds : List Name) : Prop := ∀ x, x ∈ ds ↔ x ∈ s
+
+/-- `os` enumerates the map `m`: every entry of `os` is the entry of its key in `m`, and every
+    key of `m` occurs (any order) — what ranging over a Go map yields -/
+def EnumMap (m os : Table) : Prop :=
+  (∀ kv ∈ os, tget m kv.1 = some kv.2) ∧ (∀ k v, tget m k = some v → (k, v) ∈ os)
+
+/-- a name without '.' : it denotes a top-level global -/
+def undotted (n : Name) : Bool := decide (splitDots n = [n])
+
+/-- the override in force for the exact name `n` after the whole sequence: the LAST
+    `WithGlobalOverride(n, ·)` (`Props.lastOverride_append`) -/
+def lastOverride (opts : List Opt) (n : Name) : Option Id := tget (applyOpts opts).overrides n
+
+/-- some `WithoutGlobal(n)` occurs in the sequence -/
+def deniedIn (opts : List Opt) (n : Name) : Bool := opts.contains (.without n)
+
+/-- the value the host supplied for `n` with WithGlobal(s) AFTER its last `WithoutGlobal(n)` -/
+def hostAfterDeny (opts : List Opt) (n : Name) : Option Id :=
+  opts.foldl (fun acc o =>
+    match o with
+    | .without m => if m = n then none else acc
+    | .withGlobal m v => if m = n then some v else acc
+    | _ => acc) none
+
+/-- **Spec for option sequences** (top-level name `n`, final binding `b`):
+    * an override in force is what the name is bound to;
+    * otherwise, if the host denied `n` anywhere in the sequence, the name is unbound — or, at
+      most, bound to what the host itself supplied under `n` after the last denial ("last
+      explicit decision wins"); in particular it is never the default object and never a
+      value supplied before the denial;
+    * names the host neither denied nor overrode are not constrained by this property. -/
+def allowedTop (opts : List Opt) (n : Name) (b : Option Id) : Bool :=
+  match lastOverride opts n with
+  | some v => b == some v
+  | none => if deniedIn opts n then (b == none || b == hostAfterDeny opts n) else true
+
+/-! ## A reused virtual machine (vm/vm.go: applyOptions, RunCode, resetForNewCode) -/
+
+/-- `inputGlobals` only ever grows; `globals` is re-converted from it by every
+    `applyOptions`; `modules` are the importable names; `runs` = `startCount` -/
+structure VM where
+  input : Table
+  globals : Table
+  modules : Table
+  runs : Nat
+deriving Repr, DecidableEq
+
+/-- `vm.NewEmpty()` -/
+def VM.empty : VM := ⟨[], [], [], 0⟩
+
+def putAll (t g : Table) : Table := g.foldl (fun t kv => tput t kv.1 kv.2) t
+
+def isMod (mods : List (Id × Table)) (x : Id) : Bool := (mtable mods x).isSome
+
+/-- `applyOptions(cfg.VMOpts())`: the configuration's globals are written over
+    `inputGlobals`, ALL of `inputGlobals` becomes `globals`, every global that is a module
+    becomes importable -/
+def vmApply (mods : List (Id × Table)) (vm : VM) (g : Table) : VM :=
+  let input := putAll vm.input g
+  { vm with input := input, globals := input,
+            modules := putAll vm.modules (input.filter fun kv => isMod mods kv.2) }
+
+/-- `RunCode` up to the first instruction: `applyOptions`, `start` (startCount++), and
+    `resetForNewCode` — which empties `modules` — on every start but the first -/
+def vmBegin (mods : List (Id × Table)) (vm : VM) (g : Table) : VM :=
+  let v := vmApply mods vm g
+  { v with runs := v.runs + 1, modules := if v.runs = 0 then v.modules else [] }
+
+/-- what a script obtains in a run that was compiled against configuration `g` (the compiler
+    knows exactly the names of `g`; `LoadGlobal` reads `vm.globals` by name; `import` reads
+    `vm.modules`), then attribute steps on the heap -/
+def vmAccess (mods : List (Id × Table)) (back : List (Id × Id)) (vm : VM) (g : Table)
+    (imp : Bool) (first : Name) (attrs : List Name) : Option Id :=
+  let h : St := ⟨[], mods, back⟩
+  let start : Option Id :=
+    if imp then tget vm.modules first
+    else if (tget g first).isSome then tget vm.globals first else none
+  attrs.foldl (fun cur a => cur.bind fun x => attrStep h x a) start
+
+/-- one evaluation as `risor.Eval(…, WithVM(vm))` performs it: the source is compiled against the
+    configuration first; an identifier the configuration does not bind is a COMPILE error and
+    the VM is not touched; otherwise `RunCode` -/
+def vmEval (mods : List (Id × Table)) (back : List (Id × Id)) (vm : VM) (g : Table)
+    (imp : Bool) (first : Name) (attrs : List Name) : VM × Option Id :=
+  if !imp && (tget g first).isNone then (vm, none)
+  else (vmBegin mods vm g, vmAccess mods back (vmBegin mods vm g) g imp first attrs)
+
+/-- a history of runs on one VM: each with the heap as it was then and its configuration -/
+def vmRuns (vm : VM) (hist : List (List (Id × Table) × Table)) : VM :=
+  hist.foldl (fun v h => vmBegin h.1 v h.2) vm
+
+/-- `g` is a map: every entry is THE entry of its key -/
+def IsMap (g : Table) : Prop := ∀ k v, (k, v) ∈ g → tget g k = some v
+
+/-! ## A second configuration on the same heap -/
+
+/-- building another Config allocates new modules and new builtins (with their
+    back-pointers); nothing that exists is written -/
+def addConfig (st : St) (newMods : List (Id × Table)) (newBack : List (Id × Id)) : St :=
+  { st with mods := st.mods ++ newMods, back := st.back ++ newBack }
+
 end Risor.C11
